@@ -311,7 +311,44 @@ func dominatingAtoms(fi *core.FuncInfo, target ast.Node) []condAtom {
 						split(ifs.Cond, false)
 					}
 				}
+				// a tagless switch of filters before the target (case bad1: continue; case bad2: continue):
+				// past it, every guard of a clause that leaves was false
+				if sw, ok := s.(*ast.SwitchStmt); ok && sw.Tag == nil && sw.Init == nil {
+					allLeave := true
+					var guards []ast.Expr
+					for _, cc := range sw.Body.List {
+						cl := cc.(*ast.CaseClause)
+						leaves := false
+						if len(cl.Body) > 0 {
+							switch l := cl.Body[len(cl.Body)-1].(type) {
+							case *ast.ReturnStmt:
+								leaves = true
+							case *ast.BranchStmt:
+								leaves = l.Tok == token.CONTINUE
+							case *ast.ExprStmt:
+								if call, ok := l.X.(*ast.CallExpr); ok {
+									if id, ok := call.Fun.(*ast.Ident); ok && id.Name == "panic" {
+										leaves = true
+									}
+								}
+							}
+						}
+						if cl.List == nil || !leaves {
+							allLeave = false
+							break
+						}
+						guards = append(guards, cl.List...)
+					}
+					if allLeave {
+						for _, g := range guards {
+							split(g, false)
+						}
+					}
+				}
 			}
+		case *ast.CaseClause:
+			// inside a clause of a tagless switch: its own guard held, the earlier ones did not
+			_ = v
 		}
 	}
 	return out
@@ -595,7 +632,8 @@ func c17Retention(p *core.Program, r *core.Report) {
 				return strings.HasPrefix(f, "strings.HasPrefix(") && strings.HasSuffix(f, "=true") && mentionsEntry(f) && strings.Contains(f, `(conf.logID)+"-")`)
 			}), "C17.retention", base+" own-prefix", pos, `entry name starts with logID+"-"`, `a file is deleted without testing that its name starts with the logger's own id followed by "-": files of another id sharing the leading characters are pruned`)
 			r.Check(hasFact(func(f string) bool {
-				return strings.HasPrefix(f, "len(") && strings.HasSuffix(f, "==8=true") && mentionsEntry(f)
+				// len(name[s+1:x]) == 8, or the same length computed from the two positions: x-(s+1) == 8
+				return strings.HasSuffix(f, "==8=true") && mentionsEntry(f) && (strings.HasPrefix(f, "len(") || strings.Count(f, "strings.LastIndex(") >= 2)
 			}), "C17.retention", base+" dated", pos, "8-character date component", "a file without an 8-character date component can be deleted")
 			r.Check(hasFact(func(f string) bool {
 				// <now unit> - <file unit> > keepDays   (or  <now unit> > <file unit> + keepDays)
@@ -1461,7 +1499,12 @@ func c17Rotate(p *core.Program, r *core.Report) {
 			probs = append(probs, "the handle is dropped although nothing changed")
 		}
 		if !pa.Has("OPEN") {
-			probs = append(probs, "a cycle ends without openFile(): after a change (or a failed open) no file is in use")
+			// leaving without openFile() is a no-op cycle only when the path knows that nothing changed
+			// and that a handle is in place (openFile acts on a missing handle only)
+			idle := !changed && pa.HasArg("NOHANDLE", "false") && pa.HasArg("DATE", "false") && !pa.Has("FORGET") && !pa.Has("CLOSE")
+			if !idle {
+				probs = append(probs, "a cycle ends without openFile(): after a change (or a failed open) no file is in use")
+			}
 		}
 	}
 	if !sawChange {
